@@ -154,6 +154,9 @@ func isLeafOperator(op string) bool {
 func nodeContainsAddressFilter(node map[string]any) bool {
 	for op, value := range node {
 		switch {
+		case op == "$in":
+			// collectAddressFilters never pushes the operand of $in into the lateral join:
+			// such a leaf restricts nothing there and must not count as an address filter.
 		case isLeafOperator(op):
 			if m, ok := value.(map[string]any); ok {
 				for key := range m {
